@@ -56,6 +56,16 @@ Theorem C18_constraint_currents : forall (tr : traj (F:=R)) flag ids,
 Proof. exact constraint_currents_ok. Qed.
 Print Assumptions C18_constraint_currents.
 
+(* the call itself: defined exactly when the network's constraint matrix exists; on a network that never
+   had a constraint the code raises TypeError (constraint_matrix is None) -- recorded as an observation *)
+Theorem C18_constraint_currents_call : forall (tr : traj (F:=R)) flag ids,
+  (t_cmat_present tr = true ->
+     constraint_currents_call RO RA tr flag ids = Some (constraint_currents RO RA tr flag ids))
+  /\ (t_cmat_present tr = false ->
+     constraint_currents_call RO RA tr flag ids = None /\ forall p, current_unbalance_call RO RA tr p = None).
+Proof. exact constraint_currents_call_ok. Qed.
+Print Assumptions C18_constraint_currents_call.
+
 (* cc_re_spec / cc_im_spec are the phase-aware weighted sums *)
 Theorem C18_phase_aware_sum : forall (tr : traj (F:=R)) j t,
   cc_re_spec RO tr j t
@@ -140,7 +150,7 @@ Print Assumptions C18_consistent_with_C02.
 (* ---- non-vacuity ---- *)
 Example C18_wf_example :
   let tr := mk_traj 2%nat [[16; 0]; [8; 8]; [0; 32]] [208; 240; 277] [(1, 0); (0, 1); (-1, 0)]
-                    [10%Z; 11%Z] [[1; 1; 0]; [0; 1; -1]] [(10, 4); (5, 5)] 2%nat 5 in
+                    [10%Z; 11%Z] [[1; 1; 0]; [0; 1; -1]] [(10, 4); (5, 5)] 2%nat 5 true in
   wf tr /\ NoDup (t_cindex tr) /\ nth_error (t_cindex tr) 1 = Some 11%Z /\ requested (Some [11%Z; 10%Z; 11%Z]) 11%Z = true.
 Proof. exact analysis_example_wf. Qed.
 
@@ -148,7 +158,7 @@ Proof. exact analysis_example_wf. Qed.
    keyed 10, 11 in network order; |16 + 8i| ~ 17.888 *)
 Example C18_exec_example :
   let tr := mk_traj 2%nat [[16; 0]; [8; 8]; [0; 32]]%Q [208; 240; 277]%Q [(1, 0); (0, 1); (-1, 0)]%Q
-                    [10%Z; 11%Z] [[1; 1; 0]; [0; 1; -1]]%Q [(10, 4); (5, 5)]%Q 2%nat 5%Q in
+                    [10%Z; 11%Z] [[1; 1; 0]; [0; 1; -1]]%Q [(10, 4); (5, 5)]%Q 2%nat 5%Q true in
   constraint_currents QO QA tr false (Some [11%Z; 10%Z; 11%Z]) = constraint_currents QO QA tr false (Some [10%Z; 11%Z])
   /\ map fst (constraint_currents QO QA tr false (Some [11%Z; 10%Z; 11%Z])) = [10%Z; 11%Z]
   /\ check_c18_example tr = true.
